@@ -61,7 +61,7 @@ theorem qloop_sq_close (m f : Nat) (st : QSt) (cs : Bytes) :
   omega
 
 theorem sqBody_sim (m : Nat) :
-    ∀ s, YChars s → 10 ∉ s →
+    ∀ s, YChars s →
     ∀ (run : Bool) (fuel : Nat) (st : QSt) (tail : Bytes),
       (sqBody (spaces m) run s ++ tail).length + 1 ≤ fuel →
       ∃ fuel' st', tail.length + 1 ≤ fuel' ∧ st'.racc = s.reverse ++ st.racc ∧
@@ -69,7 +69,7 @@ theorem sqBody_sim (m : Nat) :
   intro s hs
   induction hs with
   | nil =>
-    intro _ run fuel st tail hf
+    intro run fuel st tail hf
     cases run with
     | false => exact ⟨fuel, st, by simpa [sqBody] using hf, by simp, by simp [sqBody]⟩
     | true =>
@@ -81,17 +81,15 @@ theorem sqBody_sim (m : Nat) :
       refine ⟨f, _, by omega, ?_, by simpa using qloop_sq_close m f st tail⟩
       simp
   | ascii c rest hlt hne hall hrest ih =>
-    intro hnl run fuel st tail hf
-    have hnl' : 10 ∉ rest := fun h => hnl (by simp [h])
-    have hc10 : c ≠ 10 := fun h => hnl (by simp [h])
+    intro run fuel st tail hf
     have ihT : ∀ (fuel : Nat) (st : QSt) (tail : Bytes), (sqBody (spaces m) true rest ++ tail).length + 1 ≤ fuel →
         ∃ fuel' st', tail.length + 1 ≤ fuel' ∧ st'.racc = rest.reverse ++ st.racc ∧
           qloop fuel .dq st (sqBody (spaces m) true rest ++ tail) = qloop fuel' .sq st' tail :=
-      fun fuel st tail h => by simpa using ih hnl' true fuel st tail h
+      fun fuel st tail h => by simpa using ih true fuel st tail h
     have ihF : ∀ (fuel : Nat) (st : QSt) (tail : Bytes), (sqBody (spaces m) false rest ++ tail).length + 1 ≤ fuel →
         ∃ fuel' st', tail.length + 1 ≤ fuel' ∧ st'.racc = rest.reverse ++ st.racc ∧
           qloop fuel .sq st (sqBody (spaces m) false rest ++ tail) = qloop fuel' .sq st' tail :=
-      fun fuel st tail h => by simpa using ih hnl' false fuel st tail h
+      fun fuel st tail h => by simpa using ih false fuel st tail h
     by_cases h39 : c = 39
     · subst h39
       cases run with
@@ -120,7 +118,7 @@ theorem sqBody_sim (m : Nat) :
     · cases run with
       | false =>
         have hb : sqBody (spaces m) false (c :: rest) ++ tail = c :: (sqBody (spaces m) false rest ++ tail) := by
-          simp [sqBody, hc10, h39]
+          by_cases hc10 : c = 10 <;> simp [sqBody, hc10, h39]
         rw [hb] at hf ⊢
         obtain ⟨f, rfl⟩ : ∃ f, fuel = f + 1 := ⟨fuel - 1, by simp at hf; omega⟩
         simp only [Bool.false_eq_true, ↓reduceIte]
@@ -130,7 +128,7 @@ theorem sqBody_sim (m : Nat) :
         exact ⟨fuel', st', hf', by rw [hr']; simp, he'⟩
       | true =>
         have hb : sqBody (spaces m) true (c :: rest) ++ tail = sqClose (spaces m) ++ (c :: (sqBody (spaces m) false rest ++ tail)) := by
-          simp [sqBody, hc10, h39]
+          by_cases hc10 : c = 10 <;> simp [sqBody, hc10, h39]
         rw [hb] at hf ⊢
         have hl : (sqClose (spaces m) ++ (c :: (sqBody (spaces m) false rest ++ tail))).length =
             (sqBody (spaces m) false rest ++ tail).length + 1 + (m + 5) := by
@@ -142,12 +140,11 @@ theorem sqBody_sim (m : Nat) :
           { bi := st.bi, ci := st.ci, tws := 0, ind := if c.toNat == 10 then 0 else st.ind + (m + 5) + 1, racc := c :: st.racc } tail (by omega)
         exact ⟨fuel', st', hf', by rw [hr']; simp, he'⟩
   | multi ch rest cp h2 hge hall hrest ih =>
-    intro hnl run fuel st tail hf
-    have hnl' : 10 ∉ rest := fun h => hnl (by simp [h])
+    intro run fuel st tail hf
     have ihF : ∀ (fuel : Nat) (st : QSt) (tail : Bytes), (sqBody (spaces m) false rest ++ tail).length + 1 ≤ fuel →
         ∃ fuel' st', tail.length + 1 ≤ fuel' ∧ st'.racc = rest.reverse ++ st.racc ∧
           qloop fuel .sq st (sqBody (spaces m) false rest ++ tail) = qloop fuel' .sq st' tail :=
-      fun fuel st tail h => by simpa using ih hnl' false fuel st tail h
+      fun fuel st tail h => by simpa using ih false fuel st tail h
     have hrec : ∀ (l : Bytes), (∀ x ∈ l, 0x80 ≤ x) → sqBody (spaces m) false (l ++ rest) = l ++ sqBody (spaces m) false rest := by
       intro l hl
       induction l with
